@@ -14,6 +14,7 @@ import (
 	"encoding/json"
 	"fmt"
 	"os"
+	"os/exec"
 	"path/filepath"
 	"sort"
 	"strings"
@@ -178,4 +179,57 @@ func (r *recorder) take() [][]byte {
 	r.writes = nil
 	r.mu.Unlock()
 	return w
+}
+
+// mergeChild runs another build / mode of this harness and merges what it reports on stdout
+// (OP / SEEN / VIOL / COUNT lines) into the run.
+func (r *run) mergeChild(cmd *exec.Cmd) error {
+	cmd.Stderr = os.Stderr
+	out, err := cmd.StdoutPipe()
+	if err != nil {
+		return err
+	}
+	if err := cmd.Start(); err != nil {
+		return err
+	}
+	sc := bufio.NewScanner(out)
+	sc.Buffer(make([]byte, 1<<20), 1<<26)
+	for sc.Scan() {
+		line := sc.Text()
+		switch {
+		case strings.HasPrefix(line, "OP\t"):
+			p := strings.SplitN(line, "\t", 3)
+			if len(p) == 3 {
+				r.emit(p[1], p[2])
+			}
+		case strings.HasPrefix(line, "SEEN\t"):
+			r.seen(line[5:])
+		case strings.HasPrefix(line, "COUNT\t"):
+			r.count(line[6:])
+		case strings.HasPrefix(line, "VIOL\t"):
+			var v violation
+			if json.Unmarshal([]byte(line[5:]), &v) == nil {
+				r.violate(v)
+			}
+		}
+	}
+	return cmd.Wait()
+}
+
+// reportAsChild prints what an oracle-only child run collected, in the format mergeChild reads.
+func (r *run) reportAsChild() {
+	w := bufio.NewWriter(os.Stdout)
+	defer w.Flush()
+	for _, v := range r.violations {
+		b, _ := json.Marshal(v)
+		fmt.Fprintf(w, "VIOL\t%s\n", b)
+	}
+	for k := range r.distinct {
+		fmt.Fprintf(w, "SEEN\t%s\n", k)
+	}
+	for k, n := range r.hist {
+		for i := 0; i < n && i < 3; i++ {
+			fmt.Fprintf(w, "COUNT\t%s\n", k)
+		}
+	}
 }
